@@ -92,7 +92,8 @@ CLAIMED["C07"] = dict(
 CLAIMED["C08"] = dict(
     text="Proof (Lean 4) of the counter logic of the model: updates saturate within u64, the operand is 1 / the saturating cast of the sample / the other counter's pre-transition value, an update reports zero exactly on non-zero -> zero with the "
          "machine's own guard flag unset (flags per machine, cleared every call), CounterZero is delivered to the same machine at once iff an update reported zero and its action takes precedence. "
-         "Over a whole call a machine is delivered CounterZero at most twice, once per counter (C08_at_most_twice_per_call, potential argument on the ghost log). "
+         "Over a whole call a machine is delivered CounterZero at most twice, once per counter (C08_at_most_twice_per_call, potential argument on the ghost log), and the model's log of every call satisfies the monitor's own rules (C08_log_adjacent: checkLog and strayCZ accept it; C08_log_exact: "
+         "a counter update is followed at once by the CounterZero delivery exactly when it takes a counter of that machine from non-zero to zero for the first time in the call; C08_log_cz_preceded; counters of every reachable state are u64: C08_counters_u64_run). "
          "Whole-history behaviour is tied to the code by the correspondence on counter values and the hooked counter log, and by the monitor from the property text.",
     ref="5 (C08)",
     technique="Lean 4 theorems on the counter update functions of the model + hooked counter log: spec monitor and differential correspondence on the implementation",
